@@ -216,6 +216,9 @@ func treeHash(dir string) string {
 func workerEnv(extra ...string) []string {
 	env := []string{"PATH=" + os.Getenv("PATH"), "HOME=/root", "GODEBUG=asyncpreemptoff=1,tracebacklabels=1", "GOGC=off", "GOMAXPROCS=1", "GOTRACEBACK=all",
 		"GORACE=halt_on_error=0 exitcode=0 history_size=7"}
+	if v := os.Getenv("VERIF_DEBUG_Y"); v != "" {
+		env = append(env, "VERIF_DEBUG_Y="+v) // debugging aid (changes what the run allocates)
+	}
 	return append(env, extra...)
 }
 
@@ -334,6 +337,9 @@ func (b *build) runSpec(s *Spec, race bool, extraEnv ...string) *Result {
 	}
 	res.spec = s
 	res.stderr = tail(errb.String(), 12000)
+	if f := os.Getenv("VERIF_SHOW_STDERR"); f != "" && f != "1" {
+		os.WriteFile(f, errb.Bytes(), 0o644) // debugging aid: the worker's whole stderr
+	}
 	if race {
 		if rep := raceReports(errb.String()); len(rep) > 0 {
 			for _, r := range rep {
@@ -1059,6 +1065,8 @@ func cmdRun(args []string) int {
 	fmt.Println(string(js))
 	if r.infra != "" {
 		fmt.Println("NO-VERDICT:", r.infra)
+		fmt.Println(r.stderr)
+	} else if os.Getenv("VERIF_SHOW_STDERR") != "" {
 		fmt.Println(r.stderr)
 	}
 	return 0
